@@ -67,6 +67,11 @@ def up_cfgs():
                         continue
                     c.append({"N": n, "IBC": ibc, "OLD": "(%d)" % old, "PFX": pfx, "_unwindset": up_uw(n),
                               "_tier": "quick" if n <= 2 else "thorough"})
+    # pre-state attributes whose value lives in an EA inode (bit i of EAMASK): replaced entry and bystanders
+    for n, ibc, old, mask, tier in ((1, 1, 0, 1, "quick"), (1, 0, 0, 1, "quick"), (2, 2, 1, 2, "quick"), (2, 1, 0, 1, "quick"),
+                                    (2, 1, -1, 1, "quick"), (2, 0, 1, 2, "quick"), (2, 1, 1, 3, "thorough"), (2, 2, 0, 3, "thorough"),
+                                    (3, 2, 1, 2, "thorough"), (3, 3, -1, 5, "thorough")):
+        c.append({"N": n, "IBC": ibc, "OLD": "(%d)" % old, "PFX": 1, "EAMASK": mask, "_unwindset": up_uw(n), "_tier": tier})
     return c
 
 def rm_uw(n, nm=3, vm=8):
